@@ -106,7 +106,8 @@ def tournament_case(h: Harness, shape, aggs, kind, ts, wr, k, script_or_source, 
     comps = {o: [0] for o in set(shape)}
     problem, inds = build(rep, shape, aggs, comps, kind, [False])
     rec = script_or_source
-    res = run_selection(TournamentSelection(ts, wr), problem, rep, rec, inds, k, form)
+    step = shared_step(("tournament", ts, wr), lambda: TournamentSelection(ts, wr)) if (len(shape) + k) % 2 == 0 else TournamentSelection(ts, wr)
+    res = run_selection(step, problem, rep, rec, inds, k, form)
     h.count(f"tournament:population-as-{form}")
     pop = lib_pop(inds, problem)
     return pop, res, rec
@@ -206,12 +207,23 @@ def check_tournament_random(h: Harness):
 # lexicase
 # ----------------------------------------------------------------------------------------
 
+_SHARED_STEPS: dict = {}   # step objects that live across cases (a step is built once and applied every generation, to any problem)
+
+
+def shared_step(key, mk):
+    if key not in _SHARED_STEPS:
+        _SHARED_STEPS[key] = mk()
+    return _SHARED_STEPS[key]
+
+
 def lexicase_run(shape, comps, mins, eps, k, rec):
     rep = StubRep(len(mins))
     problem, inds = build(rep, shape, {o: 0 for o in set(shape)}, comps, "multi", mins)
     # (the form the population arrives in rotates with the case; no extra random draw)
     form = ("list", "iterator", "tuple", "generator")[(len(shape) + k + len(mins)) % 4]
-    res = run_selection(LexicaseSelection(epsilon=eps), problem, rep, rec, inds, k, form)
+    # every other case reuses ONE long-lived step object (problems with other optimisation directions came before)
+    step = shared_step(("lexicase", eps), lambda: LexicaseSelection(epsilon=eps)) if (len(shape) + 2 * k + sum(mins)) % 2 == 0 else LexicaseSelection(epsilon=eps)
+    res = run_selection(step, problem, rep, rec, inds, k, form)
     return lib_pop(inds, problem), res
 
 
